@@ -757,7 +757,8 @@ class SFile(object):
 
         hdrdict_string_lines = lines[1: len(lines) - 3]
         hdrdict_string = " ".join(hdrdict_string_lines)
-        hdr = eval(hdrdict_string)
+        # inf and nan are printed by name: make them known to eval
+        hdr = eval(hdrdict_string, {"inf": float("inf"), "nan": float("nan")})
 
         hdr["_SIZE"] = size
 
